@@ -17,6 +17,9 @@ import (
 	"fmt"
 	"io"
 	"log/slog"
+	"runtime/debug"
+	"strings"
+	"sync/atomic"
 	"time"
 
 	"github.com/apache/arrow-go/v18/arrow"
@@ -252,13 +255,14 @@ func (c caseT) predict(castable map[string]bool) svc.Pred {
 }
 
 type checker struct {
-	r        *mon.Run
-	log      *mon.Log
-	key      []byte
-	clusters map[string]*wk.Cluster
-	pipe     *wire.Conn
-	used     int
-	castable map[string]bool
+	r         *mon.Run
+	log       *mon.Log
+	key       []byte
+	clusters  map[string]*wk.Cluster
+	pipe      *wire.Conn
+	used      int
+	castable  map[string]bool
+	pipePanic atomic.Pointer[string]
 }
 
 func (w *checker) cluster(cf config) *wk.Cluster {
@@ -277,7 +281,18 @@ func (w *checker) cluster(cf config) *wk.Cluster {
 func (w *checker) pipeConn() *wire.Conn {
 	if w.pipe == nil || w.used >= 50 {
 		w.closePipe()
-		w.pipe = wire.NewInProc(wk.NewServer().Serve)
+		srv := wk.NewServer()
+		w.pipePanic.Store(nil)
+		w.pipe = wire.NewInProc(func(rd io.Reader, wr io.Writer) {
+			// a panic escaping Serve would kill the whole check: keep it as an observation
+			defer func() {
+				if rv := recover(); rv != nil {
+					s := fmt.Sprintf("%v\n%s", rv, debug.Stack())
+					w.pipePanic.Store(&s)
+				}
+			}()
+			srv.Serve(rd, wr)
+		})
 		w.used = 0
 	}
 	w.used++
@@ -341,6 +356,9 @@ func (w *checker) run(c caseT, cfgs []config) {
 	if pres.Err != nil {
 		if pres.Err == wire.ErrReadTimeout {
 			r.Inconclusive("pipe read timed out (machine load?)")
+		} else if pp := w.pipePanic.Load(); pp != nil {
+			wit["panic"] = *pp
+			r.Violation(sig("pipe", "panic-escapes-serve"), "a panic escaped Server.Serve: "+strings.SplitN(*pp, "\n", 2)[0], wit)
 		} else {
 			r.Violation(sig("pipe", "stream-broken"), fmt.Sprintf("%s: %v", pres.Phase, pres.Err), wit)
 		}
